@@ -21,6 +21,24 @@ def _names(o):
 _ROPS = ("rAdd", "rUpdate", "rDelete", "rAssume", "rForget", "rCacheDelete")
 
 
+def _last_r(seg, idx, u):
+    last = {}
+    for x in seg[:idx]:
+        if x.get("op") in _ROPS and x.get("r") == u:
+            last = x
+    return last
+
+
+def _foreign_controller(seg, idx, e):
+    """some matched / nominated reservation whose every owner term names a controller namespace other than the pod's"""
+    us = {u for l in e.get("matched", {}).values() for u in l} | ({e["nominated"]} if e.get("nominated") else set())
+    for u in us:
+        ow = _last_r(seg, idx, u).get("owners") or []
+        if ow and all(t.get("ctrlNs") and t.get("ctrlNs") != e.get("ns") for t in ow):
+            return True
+    return False
+
+
 def _holder_missing(seg, idx, u, listed):
     """some pod whose LAST delivered object is bound, running and annotated with reservation u is not among the pods the
     cache lists for u (structural fact about the history and the observation; API objects survive a restart)"""
@@ -58,6 +76,14 @@ def sig(fl):
             kind = "allocate-once-reservation-holding-a-pod-nominated"
             if e.get("aff") and sum(len(v) for v in e.get("matched", {}).values()) >= 1 and len(e.get("matched", {}).get(e.get("node"), [])) == 1:
                 kind += "-by-single-match-shortcut"
+        elif _foreign_controller(seg, idx, e):
+            kind = "reservation-owned-by-a-controller-of-another-namespace-matched"
+        elif not e.get("aff") and (last or {}).get("policy") == "Restricted":
+            kind = "restricted-reservation-nominated-to-pod-without-affinity"
+    elif op in ("match", "nominate") and _foreign_controller(seg, idx, e):
+        kind = "reservation-owned-by-a-controller-of-another-namespace-matched"
+    elif op == "podUpdate" and e.get("old", {}).get("pod") != e.get("pod"):
+        kind = "update-replaces-the-pod-by-a-recreated-one"
     elif op in ("rUpdate", "rAdd", "rAssume", "rDelete"):
         u = e.get("r")
         prev = None
@@ -107,11 +133,15 @@ CONF = {
         "histories are those the informer and the scheduler of this code base can deliver: per reservation uid the node never changes "
         "while it is cached (no code path re-binds an available reservation; the extended multi-scheduler 'same uid moves to another "
         "node' transition is modelled behind AllowMigrate / VERIF_C05_EXT and NOT part of the verdict); the plugin's handler and the "
-        "scheduler-wide handler (DeleteReservation) run in either order per event; duplicates and resyncs included",
-        "(F) is demanded in the reserved dimensions the pod requests (a zero request adds nothing to the sum); the pod-count rule "
+        "scheduler-wide handler (DeleteReservation) run in either order per event; duplicates and resyncs included; a pod update "
+        "may carry DIFFERENT pods as old and new object (same namespace / name, another uid: deleted and re-created, merged by a "
+        "re-list): the old pod is gone, the new one (bound; running, or already terminated: then both hold nothing) is seen "
+        "for the first time",
+        "(F) is demanded of the fit verdict AND of every nomination (a nominated Restricted reservation has room for the request in the "
+        "state of the query, nothing preempted); it is demanded in the reserved dimensions the pod requests (a zero request adds nothing to the sum); the pod-count rule "
         "counts one slot per assigned pod and subtracts the preemptible pod count as given (not clamped); fit check exercised through fitsNodeAndReservation with the node part skipped",
         "(M) owner vocabulary: label selector app=a|b, object reference (pod name / namespace), controller reference (ReplicaSet name / "
-        "namespace), empty term, no terms, unparsable term; reservation-ignored pods, taints, exact-match, pre-allocation, "
+        "namespace; homonymous controllers rs1 exist in both namespaces and own pods there), empty term, no terms, unparsable term; reservation-ignored pods, taints, exact-match, pre-allocation, "
         "operating-mode pods and the (never written by this code base) Waiting phase are not generated",
         "nomination is observed after BeforePreFilter, PreFilter and Filter of the same cycle with lazy reservation restore "
         "(the scheduler cache / NodeInfo is not part of the harness); remembered nominations (AddNominatedReservation) are not exercised",
